@@ -140,11 +140,12 @@ class Imaginizer(EndomorphicOperator):
 
     def apply(self, x, mode):
         self._check_input(x, mode)
+        dtypes = x.dtype.values() if isinstance(x.dtype, dict) else (x.dtype,)
         if mode == self.TIMES:
-            if not np.issubdtype(x.dtype, np.complexfloating):
+            if not all(np.issubdtype(dt, np.complexfloating) for dt in dtypes):
                 raise ValueError
             return x.imag
-        if x.dtype not in (np.float64, np.float32):
+        if not all(dt in (np.float64, np.float32) for dt in dtypes):
             raise ValueError
         return 1j*x
 
